@@ -697,7 +697,7 @@ class Interp:
                 for f in r['fields']:
                     if f['name'] == fname:
                         return f['t'].endswith('&')
-        if '<' in rec or '::' in rec:
+        if ('<' in rec or '::' in rec) and not rec.startswith('std::'):
             # a class type this table does not know under that spelling (an alias in a template argument, say):
             # guessing "not a reference" would silently copy the operand
             raise Unsupported('aggregate initialisation of %s: record not found' % rec)
